@@ -26,6 +26,7 @@ def run(chk, replay=None):
         chk.note_tlc(run_)
         chk.absorb(recs, verdicts, rp)
     chk.exhaustive = True
+    vcheck.absorb_sim(chk, rp, 'NixFrame', 'MC_NixFrame_sim.cfg', 300 if chk.thorough else 30, 20)
     chk.traces_validated = len(chk.distinct)
     chk.rule = ('one case per transition of all rows(n) / writeRow / writeCells / writeColumn(offset,count) / reopen histories (BFS exhaustive: %d model columns, '
                 '<=%d rows, depth %d), incl. writes past the last row; executed per column-type rotation (seed); every cell read through 5 paths') % (cols, 3 if chk.thorough else 2, 5)
